@@ -339,6 +339,11 @@ def e_any(ctx, hashable=True):
             return strlit(ctx)   # a bare None/null item is not common syntax (rbql-js reads `null` as an identifier when naming columns)
         if hashable:
             return mk('None', 'null', 'any')
+        if d(st.booleans()):
+            # a dict / object literal with string keys (the same text in both languages): commas nested in curly brackets; no round or square bracket
+            f1 = field_expr('a', d(st.integers(0, max(ctx.a_width - 1, 0))), 'aN', None)
+            f2 = field_expr('a', d(st.integers(0, max(ctx.a_width - 1, 0))), 'aN', None)
+            return both("{{'k': {}, 'v': {}}}", "{{'k': {}, 'v': {}}}", 'dict', f1, f2)
         return both('[{}, {}]', '[{}, {}]', 'list', field(ctx), strlit(ctx))
     if ctx.js or not hashable:
         return _intlit(d(st.integers(0, 9)))
